@@ -127,6 +127,11 @@ def gen_case(rng, fault=None, big=False):
                 L["parents"].append(dict(target=j, excl_dops=sorted(set(rng.choice(names) for _ in range(rng.choice([0, 0, 0, 1])))),
                                          excl_tables=sorted(set(rng.choice(names) for _ in range(rng.choice([0, 0, 1]))))))
         layers.append(L)
+    # a container may carry the short name of one of its own layers: document fragments are told apart by DOCTYPE too
+    for k, kc in enumerate(conts):
+        own = [L["i"] for L in layers if L["cont"] == k]
+        if own and rng.random() < 0.3:
+            kc["name"] = f"L{rng.choice(own)}"
     # imports (of earlier or later layers; mostly shared-data layers)
     for L in layers:
         esds = [x["i"] for x in layers if x["type"] == 4 and x["i"] != L["i"]]
@@ -768,6 +773,75 @@ def from_json(d):
     return c
 
 
+def _sr_dop(i, name="d"):
+    return (f'<DATA-OBJECT-PROP ID="{i}"><SHORT-NAME>{name}</SHORT-NAME><COMPU-METHOD><CATEGORY>IDENTICAL</CATEGORY></COMPU-METHOD>'
+            '<DIAG-CODED-TYPE BASE-DATA-TYPE="A_UINT32" xsi:type="STANDARD-LENGTH-TYPE"><BIT-LENGTH>8</BIT-LENGTH></DIAG-CODED-TYPE>'
+            '<PHYSICAL-TYPE BASE-DATA-TYPE="A_UINT32"/></DATA-OBJECT-PROP>')
+
+
+def _sr_struct(i, dop, name="S"):
+    return (f'<STRUCTURE ID="{i}"><SHORT-NAME>{name}</SHORT-NAME><PARAMS><PARAM xsi:type="VALUE"><SHORT-NAME>p</SHORT-NAME>'
+            f'<BYTE-POSITION>0</BYTE-POSITION><DOP-REF ID-REF="{dop}"/></PARAM></PARAMS></STRUCTURE>')
+
+
+def _sr_owner(keydop):
+    return (f'<TABLE ID="T1"><SHORT-NAME>T1</SHORT-NAME><KEY-DOP-REF ID-REF="{keydop}"/>'
+            '<TABLE-ROW ID="T1.rs"><SHORT-NAME>rs</SHORT-NAME><KEY>1</KEY><STRUCTURE-SNREF SHORT-NAME="S"/></TABLE-ROW>'
+            '<TABLE-ROW ID="T1.rd"><SHORT-NAME>rd</SHORT-NAME><KEY>2</KEY><DATA-OBJECT-PROP-SNREF SHORT-NAME="d"/></TABLE-ROW></TABLE>')
+
+
+def _sr_user(keydop, owner, own_struct):
+    return (f'<TABLE ID="T2"><SHORT-NAME>T2</SHORT-NAME><KEY-DOP-REF ID-REF="{keydop}"/>'
+            f'<TABLE-ROW-REF ID-REF="T1.rs" DOCREF="{owner}" DOCTYPE="LAYER"/><TABLE-ROW-REF ID-REF="T1.rd" DOCREF="{owner}" DOCTYPE="LAYER"/>'
+            f'<TABLE-ROW ID="T2.own"><SHORT-NAME>own</SHORT-NAME><KEY>3</KEY><STRUCTURE-REF ID-REF="{own_struct}"/></TABLE-ROW></TABLE>')
+
+
+def shared_rows_probe(ck):
+    """oracle only (rows shared between tables are not generated): a table row which another table re-uses via
+    TABLE-ROW-REF keeps the bindings of its short-name references -- those of the layer which owns the row -- whether
+    the re-using layer overrides the names (scenario A) or does not see them at all (scenario B)"""
+    head = ('<?xml version="1.0" encoding="UTF-8"?><ODX MODEL-VERSION="2.2.0" xmlns:xsi="http://www.w3.org/2001/XMLSchema-instance">'
+            '<DIAG-LAYER-CONTAINER ID="DLC"><SHORT-NAME>c</SHORT-NAME>')
+    dds = lambda d, st, tb: (f'<DIAG-DATA-DICTIONARY-SPEC><DATA-OBJECT-PROPS>{d}</DATA-OBJECT-PROPS><STRUCTURES>{st}</STRUCTURES>'
+                             f'<TABLES>{tb}</TABLES></DIAG-DATA-DICTIONARY-SPEC>')
+    a = (head + '<BASE-VARIANTS><BASE-VARIANT ID="BV"><SHORT-NAME>BV</SHORT-NAME>'
+         + dds(_sr_dop("BV.d"), _sr_struct("BV.S", "BV.d"), _sr_owner("BV.d")) + '</BASE-VARIANT></BASE-VARIANTS>'
+         '<ECU-VARIANTS><ECU-VARIANT ID="EV"><SHORT-NAME>EV</SHORT-NAME>'
+         + dds(_sr_dop("EV.d"), _sr_struct("EV.S", "EV.d"), _sr_user("EV.d", "BV", "EV.S")) +
+         '<PARENT-REFS><PARENT-REF ID-REF="BV" xsi:type="BASE-VARIANT-REF"/></PARENT-REFS></ECU-VARIANT></ECU-VARIANTS>'
+         '</DIAG-LAYER-CONTAINER></ODX>')
+    b = (head + '<ECU-SHARED-DATAS><ECU-SHARED-DATA ID="LIB"><SHORT-NAME>LIB</SHORT-NAME>'
+         + dds(_sr_dop("LIB.d"), _sr_struct("LIB.S", "LIB.d"), _sr_owner("LIB.d")) + '</ECU-SHARED-DATA></ECU-SHARED-DATAS>'
+         '<BASE-VARIANTS><BASE-VARIANT ID="USER"><SHORT-NAME>USER</SHORT-NAME>'
+         + dds(_sr_dop("USER.k", "k"), _sr_struct("USER.own", "USER.k", "own_struct"), _sr_user("USER.k", "LIB", "USER.own")) +
+         '</BASE-VARIANT></BASE-VARIANTS></DIAG-LAYER-CONTAINER></ODX>')
+    for tag, doc, owner, user in (("A: the re-using ECU variant overrides the names", a, "BV", "EV"),
+                                  ("B: the re-using layer does not see the names", b, "LIB", "USER")):
+        ck.count(("shared-rows", tag))
+        rep = {"probe": "shared table rows", "scenario": tag}
+        try:
+            db = hc.load_docs([doc])
+        except Exception as e:  # noqa
+            ck.violation(f"shared table rows, scenario {tag}: loading raised {type(e).__name__}: {e}", rep)
+            continue
+        lay = {dl.short_name: dl for dl in db.diag_layers}
+        for via in (owner, user):
+            for t in lay[via].diag_data_dictionary_spec.tables:
+                for row in t.table_rows:
+                    if row.short_name == "rs":
+                        got = None if row.structure is None else row.structure.odx_id.local_id
+                        want = f"{owner}.S"
+                    elif row.short_name == "rd":
+                        got = None if row.dop is None else row.dop.odx_id.local_id
+                        want = f"{owner}.d"
+                    else:
+                        continue
+                    if got != want:
+                        ck.violation(f"shared table rows, scenario {tag}: row {row.short_name} of {owner}'s table T1, reached through table "
+                                     f"{t.short_name} of layer {via}, is bound to {got}; the row belongs to {owner}, whose view holds {want}", rep)
+                        return
+
+
 def corpus():
     """hand-written cases: the scoping situations of the property text"""
     out = []
@@ -1105,6 +1179,8 @@ def main(argv=None):
             ck.note_broken(f"model execution failed: {e} {traceback.format_exc()[-400:]}")
     else:
         ck.note_broken("model not built")
+    if not ck.replay:
+        shared_rows_probe(ck)
     ck.assumptions = [
         "local ids are unique inside one layer (ODX demands uniqueness per document; collisions across layers and containers are generated)",
         "a reference is judged by the oracle only where the property text determines the target: one candidate in the referenced / "
